@@ -222,6 +222,18 @@ def borrowEnter (w : World τ) (a : ActId) (fs : List (Frame τ)) (r : Name) (am
 
 def tArgs (t : τ) : List Int := [(toPair t).1, (toPair t).2]
 
+/-- what an `until(..)` scope listens to, for traces: 0 plain scope, 1 delay, 2 `>=`, 3 `==`, 4 `<`,
+5 flag, 6 inverted flag, 9 anything else -/
+def untilDesc : Option (NExpr τ) → List Int
+  | none => [0, 0, 1]
+  | some (.delay d) => 1 :: tArgs d
+  | some (.cond (.after t)) => 2 :: tArgs t
+  | some (.cond (.moment t)) => 3 :: tArgs t
+  | some (.cond (.before t)) => 4 :: tArgs t
+  | some (.cond (.flag f)) => [5, f, 1]
+  | some (.cond (.inv (.flag f))) => [6, f, 1]
+  | some (.cond _) => [9, 0, 1]
+
 def truthy (x : Option τ) : Bool :=
   match x with
   | some v => !(beq v (zero : τ))
@@ -297,7 +309,7 @@ def execStmt (w : World τ) (a : ActId) (fs : List (Frame τ)) : Stmt τ → Wor
         | some n, some i => w.subscribe n a i
         | _, _ => some w
       match w' with
-      | some w => (w.emitScope a sid "senter" [name, (w.scope sid).inst, if notif.isSome then 1 else 0]).retTo a (.seq body :: .scopeBody sid :: fs) .unit
+      | some w => (w.emitScope a sid "senter" ([(name : Int), ((w.scope sid).inst : Int)] ++ untilDesc untilN)).retTo a (.seq body :: .scopeBody sid :: fs) .unit
       | none => w.raiseNew a fs (.assertion 1)
   | .spawn scope task prog after at_ volatile =>                       -- context.py Scope.do
     match lookup w.scopeNames scope with
@@ -335,7 +347,7 @@ def execStmt (w : World τ) (a : ActId) (fs : List (Frame τ)) : Stmt τ → Wor
     match lookup w.taskNames task with
     | none => (w.emit a "unbound" []).retTo a fs .unit
     | some t =>
-      let w := w.emit a "cancel" [1000 + t, w.statusCode t]
+      let w := w.emit a "cancel" [1000 + t, w.statusCode t, tok]
       if (w.task t).result.isSome then w.retTo a fs .unit
       else if (w.act (w.task t).runner).status == .created then
         let (w, e) := w.newExn (.taskCancelled t tok)
@@ -356,7 +368,7 @@ def execStmt (w : World τ) (a : ActId) (fs : List (Frame τ)) : Stmt τ → Wor
   | .logStatus task =>
     match lookup w.taskNames task with
     | none => (w.emit a "unbound" []).retTo a fs .unit
-    | some t => (w.emit a "status" [w.statusCode t]).retTo a fs .unit
+    | some t => (w.emit a "status" [1000 + t, w.statusCode t]).retTo a fs .unit
   | .raise cls =>
     let (w, e) := w.newExn (.user cls w.userRaises)
     { w with userRaises := w.userRaises + 1 }.raiseTo a fs e
@@ -371,7 +383,7 @@ def execStmt (w : World τ) (a : ActId) (fs : List (Frame τ)) : Stmt τ → Wor
     let av := match lk.owner with
       | none => true
       | some o => o == a
-    (w.emit a "avail" [if av then 1 else 0]).retTo a fs .unit
+    (w.emit a "avail" [l, if av then 1 else 0]).retTo a fs .unit
   | .qPut q v =>                                                       -- streams.py Queue.put
     let qu := w.queues.getD q default
     let w := w.emit a "putreq" [q, v]
@@ -522,7 +534,7 @@ def stepRet (w : World τ) (a : ActId) (f : Frame τ) (fs : List (Frame τ)) (v 
   | .tickEnd => (w.emit a "tbodyend" []).retTo a fs .unit
   | .taskResult t quiet =>
     match (w.task t).result with
-    | some (v, none) => (if quiet then w else w.emit a "taskret" [v]).retTo a fs (.int v)
+    | some (v, none) => (if quiet then w else w.emit a "taskret" [1000 + t, v]).retTo a fs (.int v)
     | some (_, some e) => w.raiseTo a fs e
     | none => w.retTo a fs .unit
   | .taskStart t delay at_ prog =>                                     -- task.py payload_wrapper
